@@ -9,6 +9,7 @@ mod model;
 mod program;
 mod queries;
 mod run;
+mod run_conc;
 mod scenario;
 mod shrink;
 
@@ -74,6 +75,110 @@ pub fn make_scenario(prop: &str, run_seed: u64, thorough: bool) -> Scenario {
                 },
             }
         }
+        "C02" => {
+            let fanin = w.chance(1, 4);
+            let program = if fanin {
+                let k = if thorough && w.chance(1, 10) { w.range(1025, 1040) } else { w.range(33, 40) };
+                generate::gen_fanin_program(&mut w, k as u32)
+            } else {
+                generate::gen_program(&mut w, &params)
+            };
+            let ops = generate::gen_concurrent_history(&mut w, &program, &params, fanin);
+            let sched = match s.below(4) {
+                0 => SchedCfg::Uniform { num: 1, den: 3, k: 3, site_salt: None, preempt: true },
+                1 => SchedCfg::Uniform { num: 1, den: 2, k: 2, site_salt: Some(s.next_u64()), preempt: true },
+                2 => SchedCfg::Uniform { num: 1, den: 8, k: 6, site_salt: None, preempt: true },
+                _ => {
+                    let d = s.range(1, 4);
+                    SchedCfg::Pct {
+                        points: (0..d).map(|_| s.range(1, 3000)).collect(),
+                        burst: s.range(5, 60) as u32,
+                        preempt: true,
+                    }
+                }
+            };
+            Scenario {
+                program,
+                ops,
+                cfg: RunCfg {
+                    storage: Storage::Mem,
+                    strict: true,
+                    yield_every: if s.chance(1, 4) { Some(s.below(3) as usize) } else { None },
+                    sched,
+                    cyclic: false,
+                    check_c03: true,
+                    crash_check: false,
+                    sched_seed: run_seed,
+                },
+            }
+        }
+        "C04" => {
+            let mut params = params.clone();
+            params.plain = true;
+            params.allow_ex = false;
+            params.min_nodes = 4;
+            let program = generate::gen_program(&mut w, &params);
+            let ops = generate::gen_rw_history(&mut w, &program);
+            let sched = match s.below(3) {
+                0 => SchedCfg::Uniform { num: 1, den: 3, k: 3, site_salt: None, preempt: true },
+                1 => SchedCfg::Uniform { num: 1, den: 2, k: 4, site_salt: Some(s.next_u64()), preempt: true },
+                _ => {
+                    let d = s.range(1, 4);
+                    SchedCfg::Pct {
+                        points: (0..d).map(|_| s.range(1, 1500)).collect(),
+                        burst: s.range(5, 40) as u32,
+                        preempt: true,
+                    }
+                }
+            };
+            Scenario {
+                program,
+                ops,
+                cfg: RunCfg {
+                    storage: Storage::Mem,
+                    strict: false,
+                    yield_every: None,
+                    sched,
+                    cyclic: false,
+                    check_c03: false,
+                    crash_check: false,
+                    sched_seed: run_seed,
+                },
+            }
+        }
+        "C05" => {
+            let mut params = params.clone();
+            params.allow_ex = false;
+            params.max_nodes = params.max_nodes.min(10);
+            let program = generate::gen_program(&mut w, &params);
+            let kind = w.below(4);
+            let ops = generate::gen_fault_history(&mut w, &program, &params, kind);
+            let storage = if w.chance(3, 10) {
+                Storage::Db { cache_cap: *w.pick(&[1, 4, 16]), ser_workers: 1, group_max: w.range(1, 3) as u32 }
+            } else {
+                Storage::Mem
+            };
+            Scenario {
+                program,
+                ops,
+                cfg: RunCfg {
+                    storage,
+                    strict: true,
+                    yield_every: if s.chance(1, 3) { Some(s.below(2) as usize) } else { None },
+                    // await hooks only: a future is never dropped at a point
+                    // where the real code cannot be suspended
+                    sched: if s.chance(1, 3) {
+                        SchedCfg::Off
+                    } else {
+                        SchedCfg::Uniform { num: 1, den: 2, k: 1, site_salt: None, preempt: false }
+                    },
+                    cyclic: false,
+                    check_c03: false,
+                    crash_check: false,
+                    sched_seed: run_seed,
+                },
+            }
+        }
         "C07" | "C08" => {
             let mut params = params.clone();
             if prop == "C08" {
@@ -114,6 +219,43 @@ pub fn make_scenario(prop: &str, run_seed: u64, thorough: bool) -> Scenario {
     }
 }
 
+/// set the fault parameter (cancellation index / panic invocation) of the
+/// scenario's faulted operation
+fn with_fault_param(sc: &Scenario, n: u64) -> Scenario {
+    use crate::scenario::{Fault, Op};
+    let mut sc = sc.clone();
+    for op in &mut sc.ops {
+        if let Op::Faulted { fault, .. } = op {
+            match fault {
+                Fault::Cancel { n: x, .. } => *x = n,
+                Fault::Panic { k, .. } => *k = n as u32,
+            }
+        }
+    }
+    sc
+}
+
+fn fault_name(sc: &Scenario) -> Option<String> {
+    use crate::scenario::{Fault, Op, Target};
+    sc.ops.iter().find_map(|op| match op {
+        Op::Faulted { op, fault } => Some(match (op.as_ref(), fault) {
+            (Op::Query { .. }, Fault::Cancel { .. }) => "cancel_query".to_string(),
+            (Op::Concurrent { .. }, Fault::Cancel { .. }) => "abort_one_of_concurrent".to_string(),
+            (_, Fault::Cancel { target: Target::OpenSession, .. }) => "cancel_input_session_call".to_string(),
+            (_, Fault::Cancel { target: Target::Commit, .. }) => "cancel_commit".to_string(),
+            (_, Fault::Cancel { target: Target::SessionStep(_), .. }) => "cancel_set_input".to_string(),
+            (_, Fault::Panic { .. }) => "executor_panic".to_string(),
+            _ => "other".to_string(),
+        }),
+        _ => None,
+    })
+}
+
+fn is_panic_fault(sc: &Scenario) -> bool {
+    use crate::scenario::{Fault, Op};
+    sc.ops.iter().any(|op| matches!(op, Op::Faulted { fault: Fault::Panic { .. }, .. }))
+}
+
 fn shape_hash(sc: &Scenario) -> u64 {
     let j = serde_json::to_vec(&(&sc.program, &sc.ops)).unwrap();
     simkit::fnv(&j)
@@ -148,29 +290,75 @@ fn batch(args: &[String]) {
     let mut nontrivial_shapes: HashSet<u64> = HashSet::new();
     let mut traces: HashSet<u64> = HashSet::new();
     let mut exposed = 0u64;
+    let mut strict_exposed = 0u64;
     let mut strict_runs = 0u64;
     let mut failures = 0u64;
     let mut known = 0u64;
     let mut totals: BTreeMap<String, u64> = BTreeMap::new();
     let mut probes: BTreeMap<String, u64> = BTreeMap::new();
     let mut samples: Vec<serde_json::Value> = Vec::new();
+    let mut fault_counts: BTreeMap<String, u64> = BTreeMap::new();
+    let emit_traces = args.iter().any(|a| a == "--emit-traces");
+    let mut trace_list: Vec<(u64, u64)> = Vec::new();
     let mut i = worker;
     while runs < max_runs && start.elapsed().as_secs_f64() < budget {
         let run_seed = mix(base, i);
-        let sc = make_scenario(&prop, run_seed, thorough);
+        let sc0 = make_scenario(&prop, run_seed, thorough);
+        // C05: calibrate (count the suspension points of the target), then
+        // enumerate every n within this scenario
+        let mut variants: Vec<Scenario> = vec![sc0.clone()];
+        if prop == "C05" {
+            let cal = run_scenario(&sc0, None);
+            if cal.failure.is_none() {
+                let cap: u64 = if thorough { 400 } else { 40 };
+                if is_panic_fault(&sc0) {
+                    variants = (0..3).map(|k| with_fault_param(&sc0, k)).collect();
+                } else {
+                    let n_max = cal.suspensions_seen;
+                    *fault_counts.entry("calibrated_suspension_points".into()).or_insert(0) += n_max;
+                    variants = if n_max <= cap {
+                        (1..=n_max).map(|n| with_fault_param(&sc0, n)).collect()
+                    } else {
+                        let mut r = Rng::new(run_seed).split(label("fault"));
+                        (0..cap).map(|_| with_fault_param(&sc0, r.range(1, n_max))).collect()
+                    };
+                    if n_max == 0 {
+                        variants = vec![];
+                    }
+                }
+            }
+        }
+        for sc in variants {
         let out = run_scenario(&sc, None);
         runs += 1;
+        if out.fault_fired {
+            if let Some(f) = fault_name(&sc) {
+                *fault_counts.entry(f).or_insert(0) += 1;
+            }
+        }
         if sc.cfg.strict {
             strict_runs += 1;
         }
         if out.exposed.is_some() {
             exposed += 1;
+            if sc.cfg.strict {
+                strict_exposed += 1;
+                if args.iter().any(|a| a == "--emit-exposed") && strict_exposed <= 2 {
+                    println!("{}", serde_json::json!({"type": "exposed", "exposed": out.exposed, "scenario": sc, "replay": ReplayFile{property: prop.clone(), harness: "engine_sim".into(), seed: run_seed, scenario: sc.clone(), decisions: Some(out.decisions.clone()), class: "none".into(), message: String::new(), known: None}}));
+                }
+            }
         }
         let sh = shape_hash(&sc);
         if out.nontrivial {
             nontrivial_shapes.insert(sh);
         }
         traces.insert(mix(sh, out.trace_hash));
+        if emit_traces {
+            let oh = simkit::fnv(
+                format!("{:?}{:?}{:?}", out.failure.as_ref().map(|f| &f.class), out.stats.serves, out.stats.executions).as_bytes(),
+            );
+            trace_list.push((i, mix(out.trace_hash, oh)));
+        }
         let st = serde_json::to_value(&out.stats).unwrap();
         for (k, v) in st.as_object().unwrap() {
             if let Some(n) = v.as_u64() {
@@ -195,6 +383,7 @@ fn batch(args: &[String]) {
                 writeln!(o, "{}", serde_json::json!({"type": "failure", "i": i, "replay": rf})).unwrap();
             }
         }
+        }
         i += workers;
     }
     let mut o = stdout.lock();
@@ -203,11 +392,12 @@ fn batch(args: &[String]) {
         "{}",
         serde_json::json!({
             "type": "summary", "prop": prop, "worker": worker, "runs": runs,
-            "strict_runs": strict_runs, "exposed_runs": exposed,
+            "strict_runs": strict_runs, "exposed_runs": exposed, "strict_exposed_runs": strict_exposed,
             "failures": failures, "known": known,
             "nontrivial_shapes": nontrivial_shapes.iter().collect::<Vec<_>>(),
             "traces": traces.len(),
             "totals": totals, "probes": probes, "samples": samples,
+            "faults": fault_counts, "trace_list": trace_list,
             "wall_s": start.elapsed().as_secs_f64(),
         })
     )
